@@ -418,7 +418,8 @@ func plans() map[string]*propertyPlan {
 			minObserved: map[string]int64{"executions": 50000, "error_outcomes": 20},
 			nontrivial:  "nontrivial", evaluations: "executions",
 			quick:    []spec{{family: "conflict", cases: 330, cpuS: 900, asKB: 8 << 20, wallS: 1200}, {family: "generated", cases: 320, cpuS: 900, asKB: 8 << 20, wallS: 1200}, {family: "cli", cases: 48, cpuS: 900, wallS: 1200}},
-			thorough: []spec{{family: "conflict", cases: 10000, cpuS: 7200, asKB: 8 << 20, wallS: 9000}, {family: "generated", cases: 10000, cpuS: 7200, asKB: 8 << 20, wallS: 9000}, {family: "cli", cases: 400, cpuS: 7200, wallS: 9000}},
+			// (a thorough case is 128 x 24 executions of one set, a third of them with extra processing runs: the budget per case is raised accordingly)
+			thorough: []spec{{family: "conflict", cases: 10000, params: map[string]string{"case_cpu_s": "600"}, cpuS: 7200, asKB: 8 << 20, wallS: 9000}, {family: "generated", cases: 10000, params: map[string]string{"case_cpu_s": "600"}, cpuS: 7200, asKB: 8 << 20, wallS: 9000}, {family: "cli", cases: 400, cpuS: 7200, wallS: 9000}},
 		},
 		"C19": {
 			level:       "exploration",
